@@ -152,11 +152,29 @@ class Abstraction:
     """bytes -> abstract content; knows the records of datasets A/B of one scale, the binning markers and the
     complete files of uninterrupted runs (reference pickles / result files)."""
 
-    def __init__(self, scale):
+    def __init__(self, scale, trees_info=None):
         self.rec = {}
         self.pieces = {}
+        self.trees_info = trees_info
+        self.tree_sig = {}     # (patch id, binned?, records per tree, sum of weights per tree) -> binning tag
+        self._tcache = {}
         for ds in ("A", "B"):
             recs, patch = drv.stored_records(ds, scale)
+            d = drv.dataset(ds, scale)
+            for pid in sorted(set(patch)):
+                rows = [r for r in range(len(patch)) if patch[r] == pid]
+                for name, (edges, closed) in drv.BINNINGS.items():
+                    if edges is None:
+                        sig = (pid, False, (len(rows),), (float(sum(d["w"][r] for r in rows)).hex(),))
+                    else:
+                        cnt, sw = [], []
+                        for lo, hi in zip(edges[:-1], edges[1:]):
+                            inb = [r for r in rows if (lo < d["z"][r] <= hi if closed == "right" else lo <= d["z"][r] < hi)]
+                            cnt.append(len(inb))
+                            sw.append(float(sum(d["w"][r] for r in inb)).hex())
+                        sig = (pid, True, tuple(cnt), tuple(sw))
+                    assert self.tree_sig.get(sig, TAG[name]) == TAG[name], "two binnings/datasets give the same trees: dataset too coarse"
+                    self.tree_sig[sig] = TAG[name]
             for i, b in enumerate(recs):
                 assert b not in self.rec, "duplicate record"
                 self.rec[b] = REC_OFFSET[ds] + i
@@ -237,12 +255,21 @@ class Abstraction:
             t = self.marker.get(data)
             return "(BinF (BWhole %d))" % t if t is not None else "Junk"
         if name == "trees.pkl":
-            t = self.pickles.get(data)
-            if t is not None:
-                return "(TreesF (Some %d))" % t
-            if any(k.startswith(data) for k in self.pickles):
+            # complete pickle <=> it unpickles (a strict prefix of a pickle never does); which binning it was built
+            # for is read off the number of records / sum of weights per tree (distinct by construction of the data)
+            if data == b"":
                 return "(TreesF None)"
-            return "Junk"
+            import hashlib
+            key = hashlib.sha1(data).hexdigest()
+            info = self._tcache.get(key)
+            if info is None:
+                info = self._tcache[key] = self.trees_info(data)
+            if not info.get("complete"):
+                return "(TreesF None)"
+            parts = rel.split(os.sep)
+            pid = int(parts[0][6:]) if parts[0].startswith("patch_") and parts[0][6:].isdigit() else -1
+            t = self.tree_sig.get((pid, bool(info["binned"]), tuple(info["counts"]), tuple(info["sumw"])))
+            return "(TreesF (Some %d))" % t if t is not None else "Junk"
         if name == "patch_ids.bin":
             if len(data) % 2:
                 return "Junk"
@@ -304,7 +331,7 @@ class Scale:
         self.ctx, self.W, self.tag, self.scale = ctx, W, tag, scale
         self.root = os.path.join(ctx.workdir, "scale_" + tag)
         os.makedirs(self.root, exist_ok=True)
-        self.ab = Abstraction(scale)
+        self.ab = Abstraction(scale, self.trees_info)
         self.refs = {}        # dataset -> {"ids","data","measure":{req: digest}}
         self.res_digest = {}  # "A"/"B" -> {"corrfunc": d, "corrdata": d}
         self.wl = []          # workload descriptions
@@ -312,6 +339,14 @@ class Scale:
 
     def p(self, *a):
         return os.path.join(self.root, *a)
+
+    def trees_info(self, blob):
+        path = self.p("tmp_trees.pkl")
+        with open(path, "wb") as fh:
+            fh.write(blob)
+        rs = self.W.call({"cmd": "trees_info", "path": path})
+        os.unlink(path)
+        return rs if rs.get("ok") else {"complete": False}
 
     # ---- untraced preparation
     def prepare(self):
@@ -334,9 +369,8 @@ class Scale:
                 ref["measure"][req] = rs["measure"][req]
                 for pid in ref["ids"]:
                     with open(os.path.join(d, "patch_%d" % pid, "trees.pkl"), "rb") as fh:
-                        blob = fh.read()
-                    assert self.ab.pickles.get(blob, TAG[req]) == TAG[req], "two binnings give the same trees: dataset too coarse"
-                    self.ab.pickles[blob] = TAG[req]
+                        c = self.ab.content(os.path.join("patch_%d" % pid, "trees.pkl"), fh.read())
+                    assert c == "(TreesF (Some %d))" % TAG[req], (c, req, pid)
                 shutil.rmtree(d)
             self.refs[ds] = ref
         assert self.refs["A"]["data"] != self.refs["B"]["data"]
@@ -566,25 +600,27 @@ class Scale:
             for pid in self.refs[w["prior_ds"]]["ids"]:
                 mk = self.ab.content("binning", st.files.get(os.path.join("patch_%d" % pid, "binning"), b"")) \
                     if os.path.join("patch_%d" % pid, "binning") in st.files else None
-                tc = self.ab.content("trees.pkl", st.files.get(os.path.join("patch_%d" % pid, "trees.pkl"), b""))
+                tc = self.ab.content(os.path.join("patch_%d" % pid, "trees.pkl"), st.files.get(os.path.join("patch_%d" % pid, "trees.pkl"), b""))
                 if mk and mk.startswith("(BinF (BWhole") and tc == "(TreesF (Some %d))" % new_t and mk != "(BinF (BWhole %d))" % new_t:
                     stale = pid
             if stale is not None:
                 return "c08-trees-stale-marker"
-            return "c08-trees-other:%s" % self.position(w, k)
+            return "c08-trees-other:%s" % self.position(w, k).split(",")[0]
+        pos = self.position(w, k).split(",")[0]          # coarse position class: the operation just completed
         if kind in ("create", "overwrite"):
-            if st.files.get("patch_ids.bin") == b"" and det.get("ids") == []:
+            if (st.files.get("patch_ids.bin") == b"" and det.get("ids") == []
+                    and self.position(w, k) == "after-open:patch_ids.bin,before-write:patch_ids.bin"):
                 return "c08-empty-patch-ids-opens-as-empty-catalog"
-            return "c08-%s-partial-catalog-opens:%s" % (kind, self.position(w, k))
+            return "c08-%s-partial-catalog-opens:%s" % (kind, pos)
         if kind == "metadata":
-            return "c08-metadata-partial:%s" % self.position(w, k)
+            return "c08-metadata-partial:%s" % pos
         if kind == "corrdata":
             dat, smp = st.files.get("cd.dat"), st.files.get("cd.smp")
             va, vb = self.ab.results.get(("cd.dat", dat)), self.ab.results.get(("cd.smp", smp))
             if va is not None and vb is not None and va != vb:
                 return "c08-result-triple-mixed"
-            return "c08-result-triple-other:%s" % self.position(w, k)
-        return "c08-result-file-partial-readable:%s" % self.position(w, k)
+            return "c08-result-triple-other:%s" % self.position(w, k).split(",")[0]
+        return "c08-result-file-partial-readable:%s" % self.position(w, k).split(",")[0]
 
 
 # ------------------------------------------------------------------ run
@@ -735,7 +771,7 @@ def sigkill_crosscheck(ctx, S, n_runs):
         if not order or order[-1] != w["name"]:
             res["status"] = "miss (killed in %s)" % (order[-1] if order else "startup")
             return res
-        got = tr.file_ops(segs[w["name"]], live)
+        got = effective_ops(w["prior_state"], tr.file_ops(segs[w["name"]], live))
         strip = lambda ops: [{a: b for a, b in o.items() if a != "nth"} for o in ops]
         if strip(got) != strip(w["ops"][:k]):
             res["status"] = "miss (%d ops completed instead of %d)" % (len(got), k)
@@ -755,7 +791,8 @@ def sigkill_crosscheck(ctx, S, n_runs):
     bad = [r for r in results if r["status"].startswith("DIFFERENT")]
     ctx.log("SIGKILL cross-check: %d runs, %d equal to the replayed prefix, %d missed the target, %d different (%.1fs)"
             % (len(results), n_eq, n_miss, len(bad), time.time() - t0))
-    ctx.extra["sigkill_crosscheck"] = {"runs": len(results), "equal": n_eq, "missed_target": n_miss, "different": bad[:5]}
+    ctx.extra["sigkill_crosscheck"] = {"runs": len(results), "equal": n_eq, "missed_target": n_miss, "different": bad[:5],
+                                       "missed": [r for r in results if r["status"].startswith("miss")][:8]}
     ctx.obligation("sigkill-crosscheck: real SIGKILL states equal replayed prefixes (%d/%d hit their target)" % (n_eq, len(results)),
                    not bad and n_eq >= max(1, len(results) // 2), json.dumps(results)[:3000])
 
@@ -779,7 +816,9 @@ def run(ctx):
         probes(ctx, scales, cases)
         ctx.extra["crash_points"] = len(cases)
         ctx.extra["worker_restarts"] = W.restarts
-        ctx.sample({"workload": "s/rebuild_edges", "ops": [(o["op"], o["path"], len(o.get("data", b""))) for o in scales[0].wl[4]["ops"][:6]]})
+        for w in scales[0].wl:
+            if w["name"] == "rebuild_edges":
+                ctx.sample({"workload": "s/rebuild_edges", "ops": [(o["op"], o["path"], len(o.get("data", b""))) for o in w["ops"][:6]]})
         for c in cases:
             if c["cls"] == 1:
                 ctx.sample({"crash_point": (c["scale"], c["w"]["name"], c["k"], c["req"]), "position": c["pos"], "detail": c["det"]}, limit=4)
